@@ -191,11 +191,14 @@ def configs(thorough, seed):
     for world in worlds:
         for k in [d for d in range(1, world + 1) if world % d == 0]:
             for (f, inv), cap, sym, (m, pre), col, hook, model in \
-                    itertools.product(fis, (0.0, 25.0), (False, True),
+                    itertools.product(fis, (0.0, 25.0, 5e-5), (False, True),
                                       methods, (True, False), (True, False),
                                       ('mlp3', 'conv')):
                 if pre and not col:
                     continue
+                if cap == 5e-5 and not (sym and (f, inv) in ((1, 1),
+                                                              (2, 3))):
+                    continue  # tiny cap: only where the volume is at stake
                 i += 1
                 if not thorough and world == 4 and (i + seed) % 2:
                     continue
